@@ -74,9 +74,31 @@ def _setlike(t):
     return head(t) == "call" and head(strip(t[1])) == "glob" and strip(t[1])[1] in ("builtins.set", "builtins.frozenset")
 
 
+def truthy_sets(t):
+    """``if A and B`` on sets means both are non-empty."""
+    def conv(c):
+        c0 = strip(c)
+        if _setlike(c0):
+            return ("cmp", ">", ("call", ("glob", "builtins.len"), (c0,), ()), const(0))
+        if head(c0) in ("and", "or"):
+            return (c0[0], tuple(conv(x) for x in c0[1]))
+        if head(c0) == "un" and c0[1] == "not":
+            return ("un", "not", conv(c0[2]))
+        return c
+    if head(t) == "ite":
+        return ("ite", conv(t[1]), t[2], t[3])
+    return t
+
+
 def set_rewrite(t):
-    """SETF: canonical commutative forms of intersection / union."""
+    """SETF: canonical commutative forms of intersection / union; |A u B| = |A| + |B| - |A n B|."""
     h = head(t)
+    if h == "setop":
+        return ("setop", t[1], tuple(sorted(t[2], key=repr)))
+    if h == "call" and strip(t[1]) == ("glob", "builtins.len") and len(t[2]) == 1 and head(strip(t[2][0])) == "setop" and strip(t[2][0])[1] == "union":
+        a, b = strip(t[2][0])[2]
+        L = lambda x: ("call", ("glob", "builtins.len"), (x,), ())
+        return ("bin", "-", ("bin", "+", L(a), L(b)), L(("setop", "inter", (a, b))))
     if h == "call" and head(t[1]) == "attr" and t[1][2] in ("intersection", "union") and len(t[2]) == 1 and not t[3]:
         a, b = t[1][1], t[2][0]
         op = "inter" if t[1][2] == "intersection" else "union"
@@ -117,15 +139,34 @@ def run(r):
     check_scope(r, "C16-SCOPE", [M + n for n in CHAO + SETS])
     rep.floor("C16-SCOPE", 7)
 
-    # ---- C16-EX: counts[k] only where len(counts) > k
+    # ---- C16-EX: counts[k] only where len(counts) > k  (in the estimators and in the private helpers they hand the vector to)
+    def ex_sites(q, pname, depth=2):
+        s_ = r.A.summary(q)
+        cparam = ("param", pname)
+        for e in s_.events_of("load_sub"):
+            if strip(e["obj"]) == cparam:
+                yield q, s_, cparam, e
+        if depth <= 0:
+            return
+        for e in s_.events_of("call"):
+            c = strip(e["term"])
+            f = strip(c[1])
+            if head(f) == "glob" and f[1] in r.P.functions and f[1].startswith(M):
+                cs = r.A.summary(f[1])
+                bind = r.A.bind_call(cs, c)
+                if bind:
+                    for pt, arg in bind.items():
+                        if strip(arg) == cparam:
+                            yield from ex_sites(f[1], pt[1], depth - 1)
     n_ex = 0
+    seen_ex = set()
     for n in CHAO:
-        q = M + n
-        s = r.A.summary(q)
-        counts = ("param", s.params[0][0])
-        for e in s.events_of("load_sub"):
-            if strip(e["obj"]) != counts:
+        q0 = M + n
+        for q, s, counts, e in ex_sites(q0, r.A.summary(q0).params[0][0]):
+            if (q, e.seq) in seen_ex:
                 continue
+            seen_ex.add((q, e.seq))
+            rep.analysed(q)
             idx = e["index"]
             if not (is_const(idx) and isinstance(idx[2], int)):
                 raise AnalysisBroken(f"{q}: subscript {show(idx)} on counts is outside the idiom list (constant index expected)")
@@ -135,7 +176,7 @@ def run(r):
             n_ex += 1
             rep.ob("C16-EX", q, ok, f"counts[{k}] is evaluated only where len(counts) > {k}", where_of(r.P, s.func, e.node),
                    expected=f"guard context implies len(counts) > {k}", found=("implied" if ok else f"reachable with {cex}"), key=f"counts[{k}] guarded")
-    rep.floor("C16-EX", 8)
+    rep.floor("C16-EX", 4)
 
     # ---- C16-SETF
     for n in SETS:
@@ -144,7 +185,8 @@ def run(r):
         rep.analysed(q)
         code = subst(s.ret, canon_params(s))
         sp = subst(spec[n].ret, canon_params(spec[n]))
-        eq = Equiv(rewrites=[set_rewrite], modelled={"pandas.Series", "builtins.set", "builtins.type"})
+        from ..rules import std_rewrites
+        eq = Equiv(rewrites=std_rewrites() + [set_rewrite, truthy_sets], modelled={"pandas.Series", "builtins.set", "builtins.type"})
         check_equiv(rep, "C16-SETF", q, f"{n} equals its set-algebra closed form after dropping missing values", code, sp,
                     where_of(r.P, s.func, s.func.node), eq=eq, key="closed form")
         a, b = ("param", "#0"), ("param", "#1")
